@@ -50,9 +50,13 @@ type lifeWorld struct {
 var lifeDocText = map[string]string{}
 
 var freshDocText = map[string]string{"d1": `{"a": 1, "c": 3, "abc": 2}`, "d2": `{"a": 1}`, "d3": `{"a": `, "d4": `{"c": 3}`,
-	"d5": `{"it": {"id": 5}}`, "d6": `{"it": {"id": 5, "name": "x"}}`, "d7": `{"a": 1}`, "d8": `{"a": 1, "b": 2}`}
+	"d5": `{"it": {"id": 5}}`, "d6": `{"it": {"id": 5, "name": "x"}}`, "d7": `{"a": 1}`, "d8": `{"a": 1, "b": 2}`, "d9": `{}`, "d10": `{"x": {}}`}
 
-func newLifeWorld() *lifeWorld {
+func newLifeWorld() *lifeWorld { return newLifeWorldP(false) }
+
+// private: every root gets type objects of its own (the same texts) - what "the same call on freshly built objects" means for a root whose
+// type objects are shared with another root in the world under test.
+func newLifeWorldP(private bool) *lifeWorld {
 	w := &lifeWorld{schemas: map[string]*jschema.Schema{}, docs: map[string]jlib.Document{}}
 	mk := func(name, text string, types map[string]string) *jschema.Schema {
 		s := jschema.New(name, text)
@@ -67,20 +71,35 @@ func newLifeWorld() *lifeWorld {
 	w.schemas["s4"] = mk("s4", "{\n  @K: 1, // {optional: true}\n  @K2: 2, // {optional: true}\n  \"a\": 1 // {optional: true}\n}",
 		map[string]string{"@K": "\"abc\" // {regex: \"^ab\"}", "@K2": "\"abc\" // {minLength: 3}"})
 	// two roots that were given the same user-type object; only s6 got the type @item inherits from, so s5 fails to compile
-	item := jschema.New("@item", "{ // {allOf: \"@base\"}\n  \"id\": 1\n}")
+	shared := func(name, text string) func() *jschema.Schema {
+		one := jschema.New(name, text)
+		return func() *jschema.Schema {
+			if private {
+				return jschema.New(name, text)
+			}
+			return one
+		}
+	}
+	item := shared("@item", "{ // {allOf: \"@base\"}\n  \"id\": 1\n}")
 	w.schemas["s5"] = jschema.New("s5", "{\n  \"it\": @item\n}")
-	_ = w.schemas["s5"].AddType("@item", item)
+	_ = w.schemas["s5"].AddType("@item", item())
 	w.schemas["s6"] = jschema.New("s6", "{\n  \"it\": @item\n}")
-	_ = w.schemas["s6"].AddType("@item", item)
+	_ = w.schemas["s6"].AddType("@item", item())
 	_ = w.schemas["s6"].AddType("@base", jschema.New("@base", "{\n  \"name\": \"abc\"\n}"))
 	// the parents of an allOf rule shared between a root that only names one of them and a root that inherits from both
-	pa := jschema.New("@A", "{\n  \"a\": 1\n}")
-	pb := jschema.New("@B", "{\n  \"b\": 2\n}")
+	pa := shared("@A", "{\n  \"a\": 1\n}")
+	pb := shared("@B", "{\n  \"b\": 2\n}")
 	w.schemas["s7"] = jschema.New("s7", "@A")
-	_ = w.schemas["s7"].AddType("@A", pa)
+	_ = w.schemas["s7"].AddType("@A", pa())
 	w.schemas["s8"] = jschema.New("s8", "{ // {allOf: [\"@A\", \"@B\"]}\n}")
-	_ = w.schemas["s8"].AddType("@A", pa)
-	_ = w.schemas["s8"].AddType("@B", pb)
+	_ = w.schemas["s8"].AddType("@A", pa())
+	_ = w.schemas["s8"].AddType("@B", pb())
+	// one type object under a root with KeysAreOptionalByDefault and under a root without it
+	pt := shared("@t", "{\n  \"id\": 1\n}")
+	w.schemas["s9"] = jschema.New("s9", "{\n  \"x\": @t\n}", jschema.KeysAreOptionalByDefault())
+	_ = w.schemas["s9"].AddType("@t", pt())
+	w.schemas["s10"] = jschema.New("s10", "@t")
+	_ = w.schemas["s10"].AddType("@t", pt())
 	for _, x := range []string{"x1", "x2", "x3"} {
 		w.docs[x] = jdoc.New(x, lifeDocText[x])
 	}
@@ -241,7 +260,7 @@ func init() {
 			if newLifeWorld().schemas["s5"].Check() == nil {
 				fatal("fixture s5 should be rejected by Check")
 			}
-			for _, n := range []string{"s7", "s8"} {
+			for _, n := range []string{"s7", "s8", "s9", "s10"} {
 				if err := newLifeWorld().schemas[n].Check(); err != nil {
 					fatal("fixture " + n + " is not a valid schema: " + err.Error())
 				}
@@ -252,7 +271,7 @@ func init() {
 		for _, h := range hs {
 			for _, st := range h.History {
 				if _, ok := fresh[st.O]; !ok {
-					r, _ := doLife(newLifeWorld(), st.O)
+					r, _ := doLife(newLifeWorldP(true), st.O)
 					fresh[st.O] = r
 				}
 			}
